@@ -6,6 +6,7 @@ CONSTANTS
   Dbs = {"d1"}
   Tbls = {"t1", "t2"}
   Privs = {"SELECT", "INSERT", "DROP", "GRANT OPTION", "SUPER"}
+  DynPrivs = {"REPLICATION_SLAVE_ADMIN"}
   MaxSet = 1
   WithAll = TRUE
   MaxStep = 3
